@@ -39,7 +39,7 @@ def reads_expected(node, ctxname="ctx"):
         if n.get("k") in ("mcall", "call"):
             for a in n["args"]:
                 a = hir.peel_refs(a)
-                if a.get("k") == "path" and hir.res_local(a) is not None and a["res"]["name"] == ctxname:
+                if a.get("k") == "path" and hir.res_local(a) is not None and "Context" in (a.get("ty") or ""):
                     return True
     return False
 
@@ -119,10 +119,15 @@ def rule_e1(F):
         partners = [p.lower() for p in unify_partners(arm["body"])]
         # operands: self.expr(scope, &CTX, left/right): same context local for both
         ctxs = {}
+        bld = hir.LocalDefs(bb.hir)
+        epos = [i for i, p_ in enumerate(bb.hir["params"]) if "Meta<ast::Expr>" in (p_.get("ty") or "")]
+        role = {epos[0]: "left", epos[1]: "right"} if len(epos) >= 2 else {}
         for c in hir.nodes(arm["body"], "mcall"):
             if c["m"] == "expr" and len(c["args"]) == 3:
-                who = names(c["args"][2])
-                ctxs[tuple(sorted(who))] = tuple(sorted(names(c["args"][1])))
+                who = sorted(role.get(q, "param%d" % q) for q in hir.param_roots(bb.hir, bld, c["args"][2]) - {0})
+                # the context an operand is checked against: identity of the local (or 'fresh:<line>' for a context built in place)
+                cl = hir.res_local(hir.peel_refs(hir.strip(c["args"][1])))
+                ctxs[tuple(who)] = ("local%s" % cl,) if cl is not None else tuple(sorted(str(hir.result_desc(c["args"][1]))[:60].split()))
         r.inst(key, {"ops": alts, "unifies_expected_with": partners, "operand_contexts": {str(k): v for k, v in ctxs.items()}})
         if not reads_expected(arm["body"]):
             r.bad(bb.path, key, relfile(bb.file), arm["line"], "operator group %s never constrains the expected type" % alts)
@@ -321,9 +326,14 @@ def rule_e5(F):
         else:
             # all three sets are tested
             for iff in hir.nodes(b.hir["value"], "if"):
-                c = iff["cond"]
-                nm = names(c)
-                if {"invalid_fields", "duplicate_fields", "missing_fields"} <= nm:
+                # the test that leads to error_field_mismatch looks at three distinct collections (invalid / duplicate / missing) ...
+                errs = [c for c in hir.nodes(iff["then"], "mcall") if c["m"] == "error_field_mismatch"]
+                if not errs:
+                    continue
+                tested = {hir.res_local(hir.peel_refs(hir.strip(c["recv"]))) for c in hir.nodes(iff["cond"], "mcall") if c["m"] in ("is_empty", "len")} - {None}
+                # ... and hands the same three to the error
+                passed = {hir.res_local(n) for a in errs[0]["args"] for n in hir.walk(a) if n.get("k") == "path" and hir.res_local(n) is not None}
+                if len(tested) >= 3 and tested <= passed:
                     break
             else:
                 r.bad(b.path, "field sets", relfile(b.file), b.line, "record_fields does not test all of invalid / duplicate / missing fields")
@@ -372,9 +382,11 @@ def rule_e5(F):
         r.missing("unify_intvars")
     else:
         pn = [p.get("name") for p in ib.hir["params"]]
+        pty = [p.get("ty") or "" for p in ib.hir["params"]]
         flag_of = {}
         for i, n in enumerate(pn):
-            if n and i + 1 < len(pn) and pn[i + 1] and pn[i + 1].endswith("signed"):
+            # a variable parameter (usize) is followed by its signedness flag (MustBeSigned)
+            if n and i + 1 < len(pn) and pn[i + 1] and pty[i] == "usize" and "MustBeSigned" in pty[i + 1]:
                 flag_of[n] = pn[i + 1]
         sets = []
         for c in hir.nodes(ib.hir["value"], "mcall"):
